@@ -6,13 +6,14 @@ from hypothesis import strategies as st
 
 from vlib.core import PropertyViolation
 from vlib import worldops
+from vlib.classes import EqByMode
 
 ID = 'C11'
 LEVEL = 'exploration'
 BUDGET = {'quick': 1200, 'thorough': 5000}
 RULE = ('Hypothesis-generated histories over one root ResourceMap: set(path, value) with plain or /-composed keys '
         'of depth 1-4 over 8 path components (incl. empty string, blank, dotted, non-ASCII), values = fresh '
-        'handle (half of them falsy objects) / empty map / pre-populated map / layered map; clear(map); push_layer(map) (handles.maps.insert(0, '
+        'handle (some of them falsy objects, some with value equality - equal-but-distinct, hashable or not - also assigned twice to one path) / empty map / pre-populated map / layered map; clear(map); push_layer(map) (handles.maps.insert(0, '
         '{}) as the directory populator does). Oracle: nested reference model (latest assignment wins, composite '
         'keys turn intermediate names into maps); after EVERY step, for every model path and for absent paths '
         '(extensions, paths through handles, siblings): m[path], chained m[a][b][c] and m.get(path)() denote the '
@@ -31,7 +32,7 @@ FUZZ_RUNS = 20000      # thorough tier: coverage-guided stage (vlib/fuzz.py), wh
 NAMES = ['a', 'b', 'c', 'k', '', ' ', 'a.b', 'é']
 
 
-class H(desper.Handle):
+class H(EqByMode, desper.Handle):
     n = 0
 
     def __init__(self):
@@ -63,16 +64,18 @@ def decode_path(p):
 
 def decode_op(t):
     sel, p = t
-    kind = ('set', 'set', 'set', 'set', 'set', 'set', 'clear', 'push', 'push', 'setsub')[sel % 10]
+    kind = ('set', 'set', 'set', 'set', 'set', 'set', 'clear', 'push', 'push', 'setsub', 'twice')[sel % 11]
     if kind == 'set':
-        return ['set', decode_path(p % (6 * 4096)), (p // (6 * 4096)) % 6]
+        return ['set', decode_path(p % (6 * 4096)), (p // (6 * 4096)) % 8]
+    if kind == 'twice':
+        return ['twice', decode_path(p % (6 * 4096)), (p // (6 * 4096)) % 2]
     if kind == 'setsub':
-        return ['setsub', p % 16, decode_path((p // 16) % (6 * 4096)), (p // (16 * 6 * 4096)) % 6]
+        return ['setsub', p % 16, decode_path((p // 16) % (6 * 4096)), (p // (16 * 6 * 4096)) % 8]
     return [kind, p % 16]
 
 
 def strategy():
-    op = st.tuples(st.integers(0, 9), st.integers(0, 16 * 6 * 4096 * 6 - 1)).map(decode_op)
+    op = st.tuples(st.integers(0, 10), st.integers(0, 16 * 6 * 4096 * 8 - 1)).map(decode_op)
     return st.fixed_dictionaries({'ops': worldops.chunked(op, 40)})
 
 
@@ -125,9 +128,14 @@ class Run:
 
     def make_value(self, kind):
         """returns (real object, model node) - model node is an MMap or the handle itself"""
-        if kind in (0, 1):
+        if kind in (0, 1, 6, 7):
             h = H()
             h.falsy = kind == 1
+            if kind >= 6:
+                # a handle with value semantics (think of a dataclass handle: equal file name, equal handle):
+                # equal-but-distinct handles are distinct values, the latest assignment wins all the same
+                h._eqmode = kind - 5
+                self.flags['value_equal_handle'] += 1
             return h, h
         if kind == 2:
             m = desper.ResourceMap()
@@ -220,6 +228,13 @@ class Run:
 
     def op_set(self, names_ix, kind):
         self.do_set(self.model, names_ix, kind)
+
+    def op_twice(self, names_ix, unhashable):
+        """two value-equal handles assigned to one path, one after the other (full check after each)"""
+        self.do_set(self.model, names_ix, 6 + unhashable)
+        self.check()
+        self.do_set(self.model, names_ix, 6)
+        self.flags['equal_handle_assigned_over_equal_handle'] += 1
 
     def op_setsub(self, target, names_ix, kind):
         maps = self.all_maps()
